@@ -408,12 +408,35 @@ def _check_setters(repo, res):
             res.check(ok, "R-NORM", s, tag, "every listed process (also two that differ only in magnitude, and one listed twice) is handed to %s, in order" % target,
                       "the %s setter hands %d of %d listed processes to %s: a listed process is skipped (processes that differ only in magnitude, or a process listed twice, are different entries)"
                       % (prop, len(calls), len(items), target), node=s.node)
-    # constructor routes the keyword lists through the setters
+    # constructor: BaseOdeModel.__init__ interpreted with the five list setters replaced by recorders - every keyword list reaches the setter
+    # of its own kind, unchanged
     init = repo.func(M.M_BASE, "BaseOdeModel.__init__")
-    for kw_, prop in (("transition", "transition_list"), ("event", "event_list"), ("birth_death", "birth_death_list"), ("ode", "ode_list")):
-        ok = any(isinstance(n, ast.Assign) and any(is_self_attr(t, prop) for t in n.targets) and norm(n.value) == kw_ for n in walk_no_nested(init.node))
-        res.check(ok, "R-NORM", init, "ctor(%s)" % kw_, "constructor argument `%s` goes through the %s setter" % (kw_, prop),
-                  "constructor argument `%s` is not assigned to self.%s" % (kw_, prop))
+    given = {"transition": [Tok("T1"), Tok("T2")], "event": [Tok("E1")], "birth_death": [Tok("B1"), Tok("B2")], "ode": [Tok("O1")],
+             "derived_param": [("d", "a*b")]}
+    want = {"transition": "transition_list", "event": "event_list", "birth_death": "birth_death_list", "ode": "ode_list", "derived_param": "derived_param_list"}
+    got = {}
+    me = Obj("Model")
+    summ = {"symbols": lambda *a, **k: Tok("t", "sym"), "sympy.symbols": lambda *a, **k: Tok("t", "sym"), "HasNewTransition": lambda *a: Obj("Canary"),
+            "Model._add_list_attr_with_limits": lambda me_, *a, **k: None, "Model._add_list_attr": lambda me_, *a, **k: None}
+    for prop in want.values():
+        summ["set:Model." + prop] = (lambda me_, v, _p=prop: got.setdefault(_p, []).append(v))
+    try:
+        ab = Abs({}, TYPES, summ, me)
+        ab.module = init.module
+        kind, out = ab.run_function(init.node, dict({"state": ["S", "I"], "param": ["a", "b"]}, **given))
+    except Undecided as e:
+        res.undecided("R-NORM", init, "constructor-routes", "outside the modelled subset: %s" % e)
+        kind = None
+    if kind is not None:
+        problems = []
+        if kind != "return":
+            problems.append("the constructor raises %s" % (out,))
+        for kw_, prop in want.items():
+            vals = got.get(prop, [])
+            if len(vals) != 1 or vals[0] is not given[kw_]:
+                problems.append("constructor argument `%s` reaches the %s setter as %r (expected once, unchanged)" % (kw_, prop, vals))
+        res.check(not problems, "R-NORM", init, "constructor-routes", "every keyword list of the constructor goes through the setter of its own kind, unchanged",
+                  "; ".join(problems[:2]), node=init.node)
 
 
 # ------------------------------------------------------------------ R-SPLIT
